@@ -438,3 +438,23 @@ N("eqord-handwritten-cmp-loop", ["C04"],
     "        let mut i = LIMBS;\n        while i > 0 {\n            i -= 1;\n            match self.limbs[i].cmp(&rhs.limbs[i]) {\n                Ordering::Equal => {}\n                other => return other,\n            }\n        }\n        Ordering::Equal")])
 B("eqord-cmp-args-swapped", ["C04"],
   [("src/cmp.rs", "        crate::algorithms::cmp(self.as_limbs(), rhs.as_limbs())", "        crate::algorithms::cmp(rhs.as_limbs(), self.as_limbs())")], "R-EQORD")
+
+# ---- D-lin (C14 / C11 / C12: linear-inequality discharge in the division and Montgomery kernels)
+B("dlin-knuth-m-off-by-one", ["C14", "C03"],
+  [("src/algorithms/div/knuth.rs", "    let n = divisor.len();\n    let m = numerator.len() - n;\n",
+    "    let n = divisor.len();\n    let m = numerator.len() - n + 1;\n")], "div_nxm")
+B("dlin-div-dispatch-two-limb-to-knuth", ["C14", "C12"],
+  [("src/algorithms/div/mod.rs", "    if divisor.len() <= 2 {\n        if divisor.len() == 1 {", "    if divisor.len() <= 1 {\n        if divisor.len() == 1 {")],
+  "requires")
+B("dlin-div-shorter-numerator-check-removed", ["C14"],
+  [("src/algorithms/div/mod.rs", "    if numerator.len() < divisor.len() {\n        let (remainder, padding) = divisor.split_at_mut(numerator.len());",
+    "    if numerator.len() + 1 < divisor.len() {\n        let (remainder, padding) = divisor.split_at_mut(numerator.len());")], "div")
+B("dlin-square_redc-inclusive-range", ["C11"],
+  [("src/algorithms/mul_redc.rs", "        for j in 1..N {\n            let (value, next_carry) = carrying_mul_add(modulus[j], m, result[j], carry);",
+    "        for j in 1..=N {\n            let (value, next_carry) = carrying_mul_add(modulus[j], m, result[j], carry);")], "square_redc")
+N("dlin-knuth-hoisted-top", ["C14", "C03"],
+  [("src/algorithms/div/knuth.rs", "            let n2 = numerator.get(j + n).copied().unwrap_or_default();\n            let n21 = u128::join(n2, numerator[j + n - 1]);\n            let n0 = numerator[j + n - 2];",
+    "            let top = j + n;\n            let n2 = numerator.get(top).copied().unwrap_or_default();\n            let n21 = u128::join(n2, numerator[top - 1]);\n            let n0 = numerator[top - 2];")])
+N("dlin-div-len-locals", ["C14", "C12"],
+  [("src/algorithms/div/mod.rs", "    if numerator.len() < divisor.len() {\n        let (remainder, padding) = divisor.split_at_mut(numerator.len());",
+    "    let nl = numerator.len();\n    if nl < divisor.len() {\n        let (remainder, padding) = divisor.split_at_mut(nl);")])
